@@ -110,7 +110,7 @@ func runC12Stream(rc *RunCtx) {
 		h := hs[i]
 		h.closeCalled = true
 		if err := h.ln.Close(); err != nil {
-			rc.Failf("close-error", "handle %d: Close returned %v", i, err)
+			rc.Probe("close_returned_error") // the statement does not constrain Close's result
 		}
 		h.closeRet = true
 	}
@@ -367,7 +367,7 @@ func runC12Packet(rc *RunCtx) {
 		h := hs[i]
 		h.closeCalled = true
 		if err := h.pc.Close(); err != nil {
-			rc.Failf("close-error", "handle %d: Close returned %v", i, err)
+			rc.Probe("close_returned_error")
 		}
 		h.closeRet = true
 	}
